@@ -592,6 +592,9 @@ pub fn suite_checksum(ctx: &Ctx, thorough: bool) {
     // context-sensitive lower-casing (a word-final capital sigma): the algorithm name is lower-cased character by character
     big.push(vec![("ΑΣ", leak_b(vec![1])), ("ασ", leak_b(vec![2]))]);
     big.push(vec![("ασ", leak_b(vec![1])), ("ΑΣ", leak_b(vec![2])), ("Σ", leak_b(vec![3])), ("ΣΑ", leak_b(vec![4]))]);
+    // names are kept as given (lower-cased, nothing else): blanks around a name are part of it, on every route
+    big.push(vec![(" a", leak_b(vec![1])), ("a", leak_b(vec![2])), ("a ", leak_b(vec![3]))]);
+    big.push(vec![(" SHA1", leak_b(vec![0xAB, 0xCD])), ("md5", leak_b(vec![1]))]);
     par_for(big.len(), &|i| checksum_one(ctx, big[i].clone()));
     // every short checksum TEXT (entries, separators, case, duplicates, prefixes) as the qualifier of a parsed PURL: if it is accepted
     // the stored text is the one canonical text, the typed accessor reads it back, and its text form is that text again
@@ -601,12 +604,17 @@ pub fn suite_checksum(ctx: &Ctx, thorough: bool) {
         let nt = toks.len();
         let total_t = (1..=depth).map(|l| nt.pow(l as u32)).sum::<usize>();
         par_for(total_t, &|mut idx| {
+            let idx0 = idx;
             let mut l = 1; let mut block = nt;
             while idx >= block { idx -= block; l += 1; block = nt.pow(l as u32); }
             let mut text = String::new();
             for _ in 0..l { text.push_str(toks[idx % nt]); idx /= nt; }
             ctx.eval();
-            let s = format!("pkg:t/n?checksum={text}");
+            // alone, and between neighbours whose keys sort right before / after `checksum` ('_' against a letter, letter case)
+            let around = [("", ""), ("check_sum_url=u&", ""), ("", "&check_sum_url=u"), ("CHECKSUN=1&", "&checksu=1"), ("checksu=1&", "&Checksum_=2"),
+                          ("", "&CHECK_SUM=1&checksum_a=2&checksuma=3"), ("checksum_a=2&check.sum=3&", "&check-sum=4&check0sum=5")];
+            let (pre, post) = around[idx0 % around.len()];
+            let s = format!("pkg:t/n?{pre}checksum={text}{post}");
             let want = refimpl::checksum_canon(&text);
             match parse_string(&s) {
                 Err(p) => ctx.violate("C06.panic", "parsing never panics", json!(s), p, "no panic".into()),
@@ -813,6 +821,22 @@ pub fn suite_protocol(ctx: &Ctx, thorough: bool) {
         let mut buf = String::from("pkg:Ty/");
         rec(&mut buf, n - 1, run_ref);
         for s in ["pkg:ty/n?k=v#s", "pkg:TY/a/b@1", "pkg:t%79/n", "pkg:/n", "pkg:ty", "http:x", "pkg:///Ty+1/n?checksum=a:00"] { run(s); }
+        // a checksum that is malformed AS WRITTEN: still only the generic checks after the hook look at it -- the conversion and the hook
+        // both run, and a hook that repairs (5), clears (8) or blanks (9) it makes the parse succeed
+        for s in ["pkg:ty/n?checksum=zz", "pkg:Ty/n?a=1&checksum=sha1-b64:q80%3D&z=2", "pkg:ty/n?Checksum=a:0"] {
+            run(s);
+            ctx.eval();
+            CFG.with(|c| c.set((conv, hook))); CONV.with(|c| c.set(0)); FIN.with(|c| c.set(0));
+            let r = guarded(|| GenericPurl::<Shape>::from_str(s));
+            let (c, f) = (CONV.with(|c| c.get()), FIN.with(|c| c.get()));
+            let inp = json!({"string": s, "conversion_fails": conv == 1, "hook": hook});
+            if c != 1 || (conv == 0 && f != 1) {
+                ctx.violate("C14.protocol", "conversion at most once, hook at most once and never before the conversion succeeded", inp.clone(), format!("conversions={c} hooks={f} (a malformed checksum is examined only after the hook)"), "1, 1".into());
+            }
+            if conv == 0 && matches!(hook, 5 | 8 | 9) && !matches!(&r, Ok(Ok(_))) {
+                ctx.violate("C14.post", "what the hook writes is what the PURL reports, after the generic checks", inp, format!("{:?}", r.map(|x| x.map(|p| p.to_string()))), "Ok: the hook replaced / removed the checksum".into());
+            }
+        }
         // SCALE: long type substrings (valid, and invalid only at the far end), long components, many qualifiers
         for n in [15usize, 16, 23, 24, 25, 64, 300, 1025] {
             run(&format!("pkg:{}/n", inflate("Ty", n))); run(&format!("pkg:{}%79/n", inflate("Ty", n))); run(&format!("pkg:{}!/n", inflate("ty", n)));
